@@ -25,6 +25,8 @@ template <class T> struct Sink {
   int dim_max, cur = -1000;
   bool pair_before_dim = false, dim_out_of_range = false;
   long raw_pairs = 0, zero_len = 0, dim_calls = 0;
+  bool fold = false;   // huge inputs: the essential H_0 bars [0,inf) are counted instead of stored
+  long ess0 = 0;
   struct DimCb { Sink* s; void operator()(int d) const { s->cur = d; s->dim_calls++; if (d < 0 || d > s->dim_max) s->dim_out_of_range = true; } };
   struct PairCb {
     Sink* s;
@@ -32,6 +34,7 @@ template <class T> struct Sink {
       s->raw_pairs++;
       if (s->cur == -1000) { s->pair_before_dim = true; return; }
       if (b == d) { s->zero_len++; return; }
+      if (s->fold && s->cur == 0 && b == 0 && d == std::numeric_limits<T>::infinity()) { s->ess0++; return; }
       s->out.push_back(oracle::Interval{s->cur, (double)b, (double)d});
     }
   };
@@ -122,6 +125,7 @@ template <class T> struct Ctx {
   bool have_pipeline = false, pipeline_ok = true;
   Diagram pipeline;
   long routes_ok = 0;
+  long fold_ess0 = -1;       // >= 0: the intervals (0;0,inf) are folded into this expected count (huge inputs)
 };
 
 template <class T> std::string base_sig(const Ctx<T>& x, const std::string& route, const std::string& variant) {
@@ -133,6 +137,7 @@ template <class T, class F>
 bool check_route(Ctx<T>& x, const std::string& route, const std::string& variant, bool may_refuse, F&& f) {
   vh::Case& c = x.c;
   Sink<T> s(x.dim_max);
+  s.fold = x.fold_ess0 >= 0;
   c.log("run route=" + route + " ctor=" + variant);
   c.count("route." + x.form + "." + route);
   c.count("ctor." + x.form + "." + variant);
@@ -157,11 +162,12 @@ bool check_route(Ctx<T>& x, const std::string& route, const std::string& variant
   c.count("obs.raw_pairs", (uint64_t)s.raw_pairs);
   c.count("obs.zero_length_dropped", (uint64_t)s.zero_len);
   std::string dc = diff_class(s.out, x.exp.dgm);
+  if (dc.empty() && s.fold && s.ess0 != x.fold_ess0) dc = "dim0_essential_count";
   if (!dc.empty()) {
     std::string third = !x.have_pipeline ? "pipeline=not_run" : (x.pipeline == x.exp.dgm ? "pipeline=agrees_with_oracle" : x.pipeline == s.out ? "pipeline=agrees_with_ripser" : "pipeline=differs_from_both");
     c.violation("ripser.intervals", base_sig(x, route, variant) + "," + dc + "," + third,
                 "n=" + vh::str(x.n) + " dim_max=" + vh::str(x.dim_max) + " p=" + vh::str(x.p) + "\n ripser : " + oracle::show(s.out) +
-                "\n oracle : " + oracle::show(x.exp.dgm) + (x.have_pipeline ? "\n gudhi simplex-tree pipeline: " + oracle::show(x.pipeline) : ""));
+                "\n oracle : " + oracle::show(x.exp.dgm) + (s.fold ? "\n essential H0 bars [0,inf): ripser " + vh::str(s.ess0) + " oracle " + vh::str(x.fold_ess0) : "") + (x.have_pipeline ? "\n gudhi simplex-tree pipeline: " + oracle::show(x.pipeline) : ""));
     return false;
   }
   x.routes_ok++;
@@ -463,6 +469,119 @@ template <class T, class Form> void big_case(vh::Case& c) {
   if constexpr (Form::sparse) Form::routes(x, edges, nullptr, INF, r, true);
   else Form::routes(x, in, thr, r, true);
   finish_case<T, Form>(x, in);
+}
+
+// ------------------------------------------------------------------------------------------------ huge sparse inputs
+// Tens of thousands of vertices (16-18 bits per vertex in the bit-field encodings), all isolated except m = 25-40
+// active ones that carry a sphere-like or few-valued metric with many ties, so that the reduction in dimension
+// dim_max really adds columns (coefficients of summed pivots are rewritten) on simplices whose encoded entry
+// (index << coefficient bits) exceeds 2^64 when the active vertices have the highest labels.  The oracle works on the
+// active vertices only (relabelled 0..m-1); the n-m isolated vertices add n-m essential H_0 bars [0,inf), which are
+// counted instead of stored on both sides.
+template <class T> MSparse<T> sparse_from_active(int n, const std::vector<int>& label, const Input& act, vh::Rng& r) {
+  typedef typename MSparse<T>::vertex_diameter_t VD;
+  struct E { int i, j; T v; };
+  std::vector<E> es;
+  for (int a = 0; a < act.n; ++a) for (int b = 0; b < a; ++b) if (act.D[a][b] != INF) { if (r.chance(1, 2)) es.push_back({label[a], label[b], (T)act.D[a][b]}); else es.push_back({label[b], label[a], (T)act.D[a][b]}); }
+  r.shuffle(es);
+  std::vector<std::vector<VD>> nb(n);
+  for (auto& e : es) { nb[e.i].emplace_back(e.j, e.v); nb[e.j].emplace_back(e.i, e.v); }
+  for (int v : label) std::sort(nb[v].begin(), nb[v].end());
+  return MSparse<T>(std::move(nb), es.size());
+}
+
+template <class T> void huge_case(vh::Case& c) {
+  vh::Rng& r = c.rng;
+  CaseGuard guard;
+  Ctx<T> x{c};
+  x.form = "sparse";
+  const int m = 25 + (int)r.below(16);
+  x.dim_max = r.chance(7, 10) ? 2 : 1;
+  { unsigned k = (unsigned)r.below(20); x.p = k < 3 ? 2 : k < 9 ? 3 : k < 13 ? 5 : k < 17 ? 7 : k < 18 ? 13 : k < 19 ? 32749 : 65521; }
+  // in dimension 1 an entry only exceeds 64 bits with a 15/16-bit coefficient field
+  if (x.dim_max == 1 && r.chance(3, 5)) x.p = r.chance(1, 2) ? 32749 : 65521;
+  // the active metric: multiples of 1/8 (exact in float and double), many ties
+  Input act; init(act, m, "");
+  unsigned kind = (unsigned)r.below(3);
+  double thr;
+  if (kind < 2) {
+    int sd = (kind == 0) ? x.dim_max : 2;             // points of the circle / 2-sphere
+    act.gen = sd == 1 ? "huge_circle" : "huge_sphere";
+    std::vector<std::vector<double>> pts;
+    while ((int)pts.size() < m) {
+      std::vector<double> q(sd + 1); double r2 = 0;
+      for (auto& v : q) { v = 2.0 * r.unit() - 1.0; r2 += v * v; }
+      if (r2 > 1 || r2 < 0.01) continue;
+      for (auto& v : q) v /= std::sqrt(r2);
+      pts.push_back(q);
+    }
+    for (int a = 0; a < m; ++a) for (int b = 0; b < a; ++b) {
+      double d2 = 0; for (int k2 = 0; k2 <= sd; ++k2) d2 += (pts[a][k2] - pts[b][k2]) * (pts[a][k2] - pts[b][k2]);
+      set(act, a, b, std::ceil(std::sqrt(d2) * 8.0) / 8.0);
+    }
+    thr = sd == 1 ? 0.25 * (double)(2 + r.below(6)) : 0.125 * (double)(7 + r.below(6));   // circle .5-1.75, sphere .875-1.5
+  } else {
+    act.gen = "huge_fewvalued";                        // random symmetric matrix on 5 values
+    for (int a = 0; a < m; ++a) for (int b = 0; b < a; ++b) set(act, a, b, 1.0 + 0.25 * (double)r.below(5));
+    thr = 1.0 + 0.25 * (double)r.below(3);              // keeps 20-60 % of the pairs
+  }
+  for (int a = 0; a < m; ++a) for (int b = 0; b < a; ++b) if (act.D[a][b] > thr) set(act, a, b, INF);
+  // number of vertices and where the active ones sit
+  int n = r.chance(1, 5) ? 131073 + (int)r.below(100000) : 32769 + (int)r.below(98000);
+  if (x.dim_max == 1 && n <= 65536) n += 65536;       // 17 bits per vertex at least
+  unsigned place = (unsigned)r.below(20);
+  std::vector<int> label(m);
+  std::string placement;
+  if (place < 14) { placement = "high"; for (int a = 0; a < m; ++a) label[a] = n - m + a; }
+  else if (place < 17) { placement = "low"; for (int a = 0; a < m; ++a) label[a] = a; }
+  else { placement = "scattered"; std::set<int> st; while ((int)st.size() < m) st.insert((int)r.below((uint64_t)n)); int a = 0; for (int v : st) label[a++] = v; }
+  { std::vector<int> perm = label; r.shuffle(perm); if (r.chance(1, 2)) label = perm; }   // active point a -> label[a], monotone or not
+  x.cfgkind = "huge_" + placement; x.gen = act.gen; x.thrcls = "finite"; x.n = n;
+  Expectation e = expect(threshold_graph(act, INF), x.dim_max, x.p, 7000);
+  if (e.too_big) { c.count("skip.complex_too_big"); c.count("huge.skip_too_big"); return; }
+  // fold the essential H_0 bars
+  long ess0 = 0; Diagram rest;
+  for (auto& iv : e.dgm) { if (iv.dim == 0 && iv.birth == 0 && iv.death == INF) ++ess0; else rest.push_back(iv); }
+  e.dgm = rest; x.exp = e; x.fold_ess0 = ess0 + (n - m);
+  bool top_bar = false, top_finite = false;
+  for (auto& iv : x.exp.dgm) if (iv.dim == x.dim_max) { top_bar = true; if (iv.death != INF) top_finite = true; }
+  // coverage accounting (documented layout of the bit field): a (dim_max+1)-simplex on the highest active vertices is
+  // encoded as (v_top << bits*(dim_max+1) | ...) << coefficient bits
+  std::vector<int> sorted = label; std::sort(sorted.begin(), sorted.end());
+  int vtop = sorted[std::min(m - 1, x.dim_max + 1)];
+  int entry_bits = log2up((long)vtop + 1) + log2up(n) * (x.dim_max + 1) + (x.p == 2 ? 0 : log2up(x.p - 1));
+  bool over64 = entry_bits > 64 && e.top_clique >= x.dim_max + 2;
+  c.log("huge sparse input: n=" + vh::str(n) + " active=" + vh::str(m) + " placement=" + placement + " labels=" + vh::vstr(label));
+  c.log("active metric (entries above the threshold removed): " + act.show());
+  c.log("threshold=" + vh::str(thr) + " dim_max=" + vh::str(x.dim_max) + " p=" + vh::str(x.p) + " value_type=" + ValName<T>::get() + " expected dispatcher class=" + dispatch_class(n, x.dim_max, x.p) + " entry_bits~" + vh::str(entry_bits));
+  c.count("gen." + act.gen); c.count("p." + vh::str(x.p)); c.count("huge.placement." + placement); c.count("huge.dim_max." + vh::str(x.dim_max));
+  c.count(std::string("dispatch.") + dispatch_class(n, x.dim_max, x.p)); c.count("n.32769plus");
+  c.count("complex.simplices", x.exp.complex_size);
+  for (auto& iv : x.exp.dgm) c.count(std::string("bars.") + (iv.death == INF ? "essential" : "finite") + ".dim" + (iv.dim >= 3 ? std::string("3plus") : vh::str(iv.dim)));
+  if (over64) c.count("huge.entry_over64");
+  if (over64 && x.p > 2) c.count("huge.entry_over64.odd_p");
+  if (over64 && x.p > 2 && top_bar) c.count("huge.entry_over64.odd_p.top_dim_bar");
+  if (over64 && x.p > 2 && top_finite) c.count("huge.entry_over64.odd_p.top_dim_finite_bar");
+  if (over64 && x.p == 2 && top_bar) c.count("huge.entry_over64.p2_control.top_dim_bar");
+  if (!over64 && x.p > 2 && top_bar) c.count("huge.entry_le64_control.odd_p.top_dim_bar");
+  // third opinion on the active vertices alone
+  if (x.p <= 13) {
+    c.log("run gudhi Rips_complex->Simplex_tree->Persistent_cohomology pipeline on the active vertices");
+    Diagram pl = gudhi_pipeline(act.D, INF, x.dim_max, (int)x.p);
+    long pe = 0;
+    for (auto& iv : pl) { if (iv.dim == 0 && iv.birth == 0 && iv.death == INF) ++pe; else x.pipeline.push_back(iv); }
+    x.have_pipeline = true; c.count("pipeline.compared");
+    x.pipeline_ok = (x.pipeline == x.exp.dgm) && pe == ess0;
+  } else c.count("pipeline.skipped_big_prime");
+  unsigned k = (unsigned)r.below(3);
+  T thrT = k == 0 ? std::numeric_limits<T>::infinity() : k == 1 ? std::numeric_limits<T>::max() : (T)thr;
+  c.log("sparse threshold argument = " + vh::str((double)thrT));
+  engine_routes<T, MSparse<T>>(x, "from_edge_list", thrT, true, true, r, -1, [&] { return sparse_from_active<T>(n, label, act, r); });
+  finish_pipeline(x);
+  if (!c.failed && top_bar) c.nontrivial(vh::hash_str(vh::G().history));
+  if (!c.failed) c.count("cases.completed");
+  c.sample("{\"form\":\"sparse(huge)\",\"value_type\":\"" + std::string(ValName<T>::get()) + "\",\"history\":\"" + vh::jesc(vh::G().history.substr(0, 900)) + "\",\"expected_without_essential_H0\":\"" +
+           vh::jesc(oracle::show(x.exp.dgm)) + "\",\"essential_H0\":" + vh::str(x.fold_ess0) + ",\"routes_compared\":" + vh::str(x.routes_ok) + "}");
 }
 
 }  // namespace c11
